@@ -16,8 +16,10 @@ if SCRATCH:
     OUT = os.path.join("/tmp", "verif-scratch-" + hashlib.sha1(os.path.realpath(REPO).encode()).hexdigest()[:10])
     COQ = os.path.join(OUT, "coq")
     os.makedirs(OUT, exist_ok=True)
-    subprocess.run(["rsync", "-a", "--delete", "--exclude", "corr/", "--exclude", ".lock",
-                    os.path.join(VERIF, "coq") + "/", COQ + "/"], check=True)
+    _r = subprocess.run(["rsync", "-a", "--delete", "--exclude", "corr/", "--exclude", ".lock",
+                         os.path.join(VERIF, "coq") + "/", COQ + "/"])
+    if _r.returncode not in (0, 24):     # 24 = a source file vanished while copying (someone else is compiling): harmless
+        raise RuntimeError("rsync of the Coq tree failed with status %d" % _r.returncode)
 else:
     OUT = VERIF
     COQ = os.path.join(VERIF, "coq")
